@@ -148,7 +148,7 @@ const BASE: Family = Family {
     eager: false,
 };
 
-pub const FAMILY_NAMES: &[&str] = &["mix", "nolimit", "evict", "expiry", "stream", "pool", "nocancel", "seq", "scale"];
+pub const FAMILY_NAMES: &[&str] = &["mix", "nolimit", "evict", "expiry", "stream", "pool", "nocancel", "seq", "scale", "scale-stream"];
 
 /// Named parameter sets. To add a family: add a name above and an arm here.
 pub fn family(name: &str) -> Option<Family> {
@@ -282,7 +282,8 @@ struct Recorder {
 impl Recorder {
     fn new(id: &str, backend: Backend, owned: bool, note: &str) -> (Recorder, String) {
         let ex = Executor::new(backend, owned);
-        let header = format!("trace {} {} {} {}", id, backend.name(), variant_text(ex.owned), note);
+        let fine = if crate::sched::FINE.load(std::sync::atomic::Ordering::SeqCst) { " fine=1" } else { "" };
+        let header = format!("trace {} {} {} {}{}", id, backend.name(), variant_text(ex.owned), note, fine);
         let mut text = String::with_capacity(4096);
         text.push_str(&header);
         text.push('\n');
@@ -609,6 +610,124 @@ pub fn scale_run(backend: Backend, forced_owned: Option<bool>, seed: u64, run: u
     }
     rec.drain(&mut rng);
     rec.text.push_str(&format!("# scale run: {} keys, trace text not recorded\n", n));
+    rec.finish(id, header, Vec::new())
+}
+
+
+/// Many keys and a `lock_all_entries` stream (monitors only, no trace text): `n` valued keys, more than 64 of
+/// them held by client guards, then a stream is created and polled until it reports `Pending`; the keys
+/// nobody holds must have been delivered by then (`C03.stream_stall`). Then the guards are dropped and the
+/// stream runs to its end. Finds defects that need more entries than a small scenario has (e.g. a bound on
+/// the number of per-entry futures driven at once).
+pub fn scale_stream_run(backend: Backend, forced_owned: Option<bool>, seed: u64, run: u64) -> RunOut {
+    let mut rng = Rng::new(seed, run);
+    let owned = forced_owned.unwrap_or_else(|| rng.pct(50));
+    let id = format!("scale-stream-{}-{}-{}", backend.name(), seed, run);
+    let (mut rec, header) = Recorder::new(&id, backend, owned, &format!("family=scale-stream seed={} run={}", seed, run));
+    rec.quiet = true;
+    let n = 84 + rng.below(60);
+    let m = 66 + rng.below(n - 66 - 8);
+    let settle = |rec: &mut Recorder, max: usize| {
+        for _ in 0..max {
+            if rec.stop {
+                return;
+            }
+            let en = rec.ex.enabled();
+            match en.resumable.first() {
+                Some(a) => {
+                    rec.act(Action::Resume(*a));
+                }
+                None => break,
+            }
+        }
+    };
+    // fill
+    for key in 1..=n {
+        if rec.stop {
+            break;
+        }
+        if !rec.act(Action::Start(Call::Lock { sh: Shape::T, key, lim: 0 })) {
+            break;
+        }
+        settle(&mut rec, 6);
+        let en = rec.ex.enabled();
+        if let Some((g, _)) = en.guards.iter().find(|(_, k)| *k == key).copied() {
+            rec.act(Action::Gop(g, Gop::Ins((key % 89) as i64 + 10)));
+            rec.act(Action::Start(Call::Drop(g)));
+            settle(&mut rec, 4);
+        }
+    }
+    // hold m of them: the oldest, the newest, or a random subset
+    let mut held: Vec<Key> = match rng.below(3) {
+        0 => (1..=m).collect(),
+        1 => (n - m + 1..=n).collect(),
+        _ => {
+            let mut all: Vec<Key> = (1..=n).collect();
+            for i in (1..all.len()).rev() {
+                let j = rng.below(i as u64 + 1) as usize;
+                all.swap(i, j);
+            }
+            all.truncate(m as usize);
+            all
+        }
+    };
+    if rng.pct(50) {
+        held.reverse();
+    }
+    let shapes = [Shape::B, Shape::A, Shape::T, Shape::TA];
+    for key in &held {
+        if rec.stop {
+            break;
+        }
+        let sh = shapes[rng.below(4) as usize];
+        rec.act(Action::Start(Call::Lock { sh, key: *key, lim: 0 }));
+        settle(&mut rec, 6);
+    }
+    // the stream: create it, poll until it has nothing more to deliver
+    let drive_stream = |rec: &mut Recorder, max: usize| {
+        for _ in 0..max {
+            if rec.stop {
+                return;
+            }
+            let en = rec.ex.enabled();
+            if let Some(a) = en.resumable.first() {
+                rec.act(Action::Resume(*a));
+            } else if let Some(a) = en.stream_continue.first() {
+                rec.act(Action::StreamStep(*a));
+            } else if let Some((a, _, _)) =
+                en.stream_idle.iter().find(|(_, lp, woken)| matches!(lp, LastPoll::Fresh | LastPoll::Item) || *woken)
+            {
+                rec.act(Action::StreamStep(*a));
+            } else {
+                break;
+            }
+        }
+    };
+    if !rec.stop {
+        rec.act(Action::Start(Call::Stream));
+        drive_stream(&mut rec, 8 * n as usize);
+    }
+    // release the held keys (in a random order), let the stream finish
+    if !rec.stop {
+        let mut gs: Vec<Gid> = rec.ex.enabled().guards.iter().filter(|(_, k)| held.contains(k)).map(|x| x.0).collect();
+        for i in (1..gs.len()).rev() {
+            let j = rng.below(i as u64 + 1) as usize;
+            gs.swap(i, j);
+        }
+        for g in gs {
+            if rec.stop {
+                break;
+            }
+            rec.act(Action::Start(Call::Drop(g)));
+            settle(&mut rec, 4);
+            if rng.pct(30) {
+                drive_stream(&mut rec, 6);
+            }
+        }
+        drive_stream(&mut rec, 8 * n as usize);
+    }
+    rec.drain(&mut rng);
+    rec.text.push_str(&format!("# scale-stream run: {} keys, {} held, trace text not recorded\n", n, m));
     rec.finish(id, header, Vec::new())
 }
 
@@ -1179,6 +1298,14 @@ pub struct ChunkInfo {
 }
 
 pub fn explore(opts: ExploreOpts) -> Result<String, String> {
+    let mut opts = opts;
+    // `fine-<family>`: the same exploration with agents also parking at the `InCs` sites in the middle of
+    // critical sections (monitors only: the model's steps are whole critical sections).
+    let fine = opts.family.starts_with("fine-");
+    if fine {
+        opts.family = opts.family["fine-".len()..].to_string();
+        crate::sched::FINE.store(true, std::sync::atomic::Ordering::SeqCst);
+    }
     let started = std::time::Instant::now();
     let file = std::fs::File::create(&opts.out).map_err(|e| format!("cannot create {}: {}", opts.out, e))?;
     let mut out = std::io::BufWriter::with_capacity(1 << 20, file);
@@ -1188,12 +1315,16 @@ pub fn explore(opts: ExploreOpts) -> Result<String, String> {
     let seed = opts.seed;
     let fork = opts.fork;
 
-    if opts.family == "scale" {
+    if opts.family == "scale" || opts.family == "scale-stream" {
         let count = opts.count;
+        let with_stream = opts.family == "scale-stream";
         ordered_parallel(
             count as usize,
             opts.threads,
-            move |i| (vec![scale_run(backend, owned, seed, i as u64)], ChunkInfo::default()),
+            move |i| {
+                let r = if with_stream { scale_stream_run(backend, owned, seed, i as u64) } else { scale_run(backend, owned, seed, i as u64) };
+                (vec![r], ChunkInfo::default())
+            },
             |runs, _| {
                 for r in runs {
                     let _ = out.write_all(r.trace.as_bytes());
